@@ -38,11 +38,11 @@ RULE = ("cases = (operation, parameters, input shape 0-3 d with lengths 0-7, dty
         "their own chunking and a dask|numpy flag). Complete part: all 8 chunkings of shape (2,3) x 27 fixed operations. "
         "non-trivial = some dask input axis split into >= 2 chunks; distinct = distinct case description without data seed.")
 ASSUMPTIONS = ["NumPy 2.x defines the expected values, shape and dtype", "sync scheduler (threads for a tenth)"]
-BUDGET = {"quick": 90, "thorough": 560}
-FLOORS = {"quick": {"evaluations": 3000, "distinct_nontrivial": 1500, "counters": {"compared": 2500, "lazy_meta_checked": 2500},
-                    "max_skipped_fraction": 0.35},
-          "thorough": {"evaluations": 40000, "distinct_nontrivial": 20000, "counters": {"compared": 33000, "lazy_meta_checked": 33000},
-                       "max_skipped_fraction": 0.35}}
+BUDGET = {"quick": 60, "thorough": 480}
+FLOORS = {"quick": {"evaluations": 2200, "distinct_nontrivial": 1400, "counters": {"compared": 2000, "lazy_meta_checked": 2000},
+                    "max_skipped_fraction": 0.3},
+          "thorough": {"evaluations": 45000, "distinct_nontrivial": 24000, "counters": {"compared": 40000, "lazy_meta_checked": 40000},
+                       "max_skipped_fraction": 0.3}}
 EXHAUSTIVE_SPACE = "all 8 chunkings of shape (2,3) x 27 fixed structural operations"
 CLAIM = ("Every generated structural operation was computed by the real dask.array and compared with NumPy on the same data "
          "(shape, dtype, exact values) and with its own lazy metadata; held = no mismatch and no dask exception inside the "
@@ -58,10 +58,11 @@ PENDING = {
     "pad:stat-mode&stat_length>axis:values": "stat_length larger than the axis: the trailing window start goes negative and wraps (NumPy clips)",
     "pad:mode=constant&padded-axis-empty:ZeroDivisionError@array/core.py:<genexpr>": "constant pad of a zero-length axis divides by zero (chunk size 0 handed to normalize_chunks)",
     "pad:mode=mean&integer-dtype&corners:values": "integer mean padding on >= 2 axes: corners are the rounded block mean, NumPy rounds axis by axis (off by one)",
-    "pad:zero-length&mode=constant:ValueError@array/core.py:concatenate3": "pad (even with width 0) of a >= 2-d array with a zero-length axis: a key name reaches concatenate3 as data",
+    "pad:zero-length:ValueError@array/core.py:concatenate3": "pad (even with width 0, any mode) of a >= 2-d array with a zero-length axis: a key name reaches concatenate3 as data",
     "repeat:repeated-axis-empty:ValueError@array/core.py:concatenate": "repeat along a zero-length axis raises 'Need array(s) to concatenate'",
     "reshape:zero-length:TypeError@array/reshape.py:reshape_rechunk": "reshape (also roll/ravel through it) of an array with a zero-length dimension: reduce() of empty iterable",
     "reshape:zero-length:IndexError@array/reshape.py:reshape_rechunk": "reshape of an array with two zero-length dimensions: tuple index out of range",
+    "reshape:zero-length:ValueError@local.py:start_state_from_dask": "reshape of a zero-length array, e.g. (0,3)->(3,0,3): graph misses blocks ('Missing dependency') at compute",
     "roll:scalar-shift&axis-tuple:ValueError@array/routines.py:roll": "roll(x, int, (a0, a1)) raises; NumPy uses the scalar shift for every axis (dask's own test_roll expects the error)",
 }
 
@@ -360,7 +361,7 @@ def cases(tier, seed):
                 c["secs"] = [{"shape": [2, 3], "chunks": [list(x) for x in ch], "dtype": "int64", "seed": 5, "np": False}]
                 c["pos"] = 0
             yield c
-    n = 4600 if tier == "quick" else 60000
+    n = 4600 if tier == "quick" else 100000
     for _ in range(n):
         yield _gen(rng, rng.choice(OPS))
 
@@ -424,7 +425,7 @@ def _features(case, x):
             f.append("prepend/append")
     elif op == "repeat":
         ax = case["axis"]
-        if ax is not None and shape and shape[ax] == 0:
+        if (ax is not None and shape and shape[ax] == 0) or (ax is None and shape == (0,)):
             return "repeated-axis-empty"
     elif op in ("concatenate", "stack", "block"):
         if any(s["np"] for s in case.get("secs", [])):
@@ -581,9 +582,12 @@ def run_case(case, ctx):
                 from ..core.ctx import dask_frame
 
                 fr = dask_frame(ex)
-                if fr and fr[1] == "reshape_rechunk" and 0 in shape:
-                    # roll(axis=None), reshape, ... all reach the same code: one mechanism, one label
+                if 0 in shape and ((fr and fr[1] == "reshape_rechunk") or op == "reshape" or (op == "roll" and case["axis"] is None)):
+                    # reshape, and roll(axis=None) which ravels through it, reach the same code: one mechanism, one label prefix
                     ctx.exception(ex, prefix="reshape:zero-length", via=op)
+                elif op == "pad" and 0 in shape and fr and fr[1] == "concatenate3":
+                    # whatever the mode: a key name of an empty pad block reaches concatenate3 as data
+                    ctx.exception(ex, prefix="pad:zero-length", mode=case["mode"])
                 else:
                     ctx.exception(ex, prefix="%s:%s" % (op, feat))
                 return
